@@ -382,6 +382,10 @@ func minimallyEncode(data []byte) []byte {
 		return data
 	}
 
+	// The bytes are rewritten below: work on a copy as data may be shared with
+	// other stack items or with the script being executed.
+	data = append(make([]byte, 0, len(data)), data...)
+
 	for i := len(data) - 1; i > 0; i-- {
 		if data[i-1] != 0 {
 			if data[i-1]&0x80 != 0 {
